@@ -6,6 +6,7 @@ import numpy as np
 from hypothesis import strategies as st
 
 from vf.harness import Check
+from vf.gen.util import weighted
 from vf.gen import lens as GL
 from vf.gen.build import build
 from vf.gen.edit import edit_strategy, build_with_history, warm_all, ALL_KINDS
@@ -85,7 +86,7 @@ class C17(Check):
                                            edit=edit_strategy(ALL_KINDS, p_none=3)))
         coated = st.fixed_dictionaries(dict(kind=st.just('coated'), spec=GL.lens_spec(POL_NOMIRROR, min_surfs=2),
                                             rays=ray_bundle(), state=state_strategy(), wl=st.integers(0, 3)))
-        return st.one_of(fres, fres, elem, trace, coated)
+        return weighted((2, fres), (1, elem), (1, trace), (1, coated))
 
     def fixed_cases(self, tier):
         return [dict(kind='polarizers')]
@@ -137,6 +138,34 @@ class C17(Check):
             R0 = ((n1 - n2) / (n1 + n2)) ** 2
             out.close('normal_incidence', [abs(rs[j0[0]]) ** 2, abs(rp[j0[0]]) ** 2], [R0, R0], atol=1e-13)
         out.nt(bool(np.any(th > math.radians(20))))
+        # the same coefficients reached through the coating of a traced surface (angle of incidence worked out by the
+        # library from ray and normal): one coated plane interface n1 -> n2, met by a ray travelling towards +z, and the
+        # same interface met by a ray travelling towards -z (after an uncoated plane mirror).  x-polarised light is
+        # s-polarised for a ray in the y-z plane, y-polarised light is p-polarised; |E|^2 is what the library reports.
+        from vf.gen.simple import spec as mk, surf, glass, MIRROR
+        from optiland.rays import create_polarization
+
+        class Chief:
+            x = np.array([0.0])
+            y = np.array([0.0])
+        for th_ in th[:3]:
+            deg = math.degrees(float(th_))
+            if not (0.5 < deg < 80.0):
+                continue
+            i_s = float(abs(2 * n1 * math.cos(th_) / (n1 * math.cos(th_) + n2 * math.sqrt(1 - (n1 / n2 * math.sin(th_)) ** 2))) ** 2)
+            i_p = float(abs(2 * n1 * math.cos(th_) / (n2 * math.cos(th_) + n1 * math.sqrt(1 - (n1 / n2 * math.sin(th_)) ** 2))) ** 2)
+            plus = mk([surf(R='inf', t=5.0, mat=glass(n2), stop=True, coat='fresnel')], n0=n1, ap=('EPD', 1.0),
+                      fields=(0.0, deg), wls=(0.55,), img=glass(n2))
+            minus = mk([surf(R='inf', t=-5.0, mat=MIRROR, stop=True), surf(R='inf', t=-5.0, mat=glass(n2), coat='fresnel')],
+                       n0=n1, ap=('EPD', 1.0), fields=(0.0, deg), wls=(0.55,), img=glass(n2))
+            for direction, sp in (('+z', plus), ('-z', minus)):
+                for nm, want in (('H', i_s), ('V', i_p)):
+                    o = build(sp)
+                    o.set_polarization(create_polarization(nm))
+                    r = o.trace(0.0, 1.0, 0.55, None, Chief())
+                    out.close('coated_plane_transmits_fresnel_intensity', float(np.ravel(r.i)[0]), want, rtol=1e-9, atol=1e-12,
+                              direction=direction, state=nm, n1=n1, n2=n2, aoi_deg=deg)
+            out.cls('coated_plane_traced')
 
     def check_polarizers(self, case, out):
         from optiland import jones as JJ
